@@ -8,12 +8,16 @@ for n in $NAMES; do
   d=seeded/$n; [ -d "$d" ] || continue
   P=$d/patch_ported.diff; [ -f "$P" ] || P=$d/patch.diff
   PROP=$(echo $n | sed 's/^revert-//' | cut -d- -f1)
+  # meta.json may name further properties whose check is the one that decides this change ("check_with")
+  EXTRA=$(python3 -c "import json,sys; print(' '.join(json.load(open('$d/meta.json')).get('check_with', [])))" 2>/dev/null)
   WT=/tmp/sweep/$n
   git -C /repo worktree remove --force $WT 2>/dev/null
   git -C /repo worktree add -q --detach $WT HEAD || continue
   if ! git -C $WT apply "$(pwd)/$P" 2>/dev/null; then echo "$(date +%H:%M) $n $PROP PATCH-DOES-NOT-APPLY" >> seeded/SWEEP.log; git -C /repo worktree remove --force $WT; continue; fi
-  VERIF_REPO=$WT VERIF_WORK=/tmp/sweep/work-$n VERIF_EVIDENCE_DIR=/tmp/sweep/ev-$n VERIF_REPLAY_DIR=/tmp/sweep/rp-$n ./check $PROP --tier quick > /tmp/sweep/$n.log 2>&1; RC=$?
+  for P2 in $PROP $EXTRA; do
+  VERIF_REPO=$WT VERIF_WORK=/tmp/sweep/work-$n VERIF_EVIDENCE_DIR=/tmp/sweep/ev-$n VERIF_REPLAY_DIR=/tmp/sweep/rp-$n ./check $P2 --tier quick > /tmp/sweep/$n.log 2>&1; RC=$?
   V=$(grep -c "^VIOLATION" /tmp/sweep/$n.log); H=$(grep "^COUNTEREXAMPLE" /tmp/sweep/$n.log | awk '{print $2}' | tr '\n' ',' )
-  echo "$(date +%H:%M) $n $PROP rc=$RC violations=$V harnesses=$H" >> seeded/SWEEP.log
+  echo "$(date +%H:%M) $n $P2 rc=$RC violations=$V harnesses=$H" >> seeded/SWEEP.log
+  done
   git -C /repo worktree remove --force $WT; rm -rf /tmp/sweep/work-$n /tmp/sweep/ev-$n /tmp/sweep/rp-$n
 done
